@@ -30,6 +30,8 @@ type c05Caller struct {
 	SimConnect  bool
 	Cancel      bool // a canceller thread cancels this caller's context at some point
 	After       int  // k+1: this caller calls DialPeer only after caller k has returned (0: at once)
+	AfterLate   bool // ... only after the late address was added to the peerstore
+	AfterClose  bool // ... only after the scenario's closer thread has closed the connection (CloseConnOf)
 }
 
 type c05Scn struct {
@@ -47,6 +49,8 @@ type c05Scn struct {
 	// AttemptOnTimeout: no cap can keep an address waiting in this scenario, so a caller that is released by the dial
 	// timeout (not by its own context) must still have seen every candidate address handed to a transport while it waited
 	AttemptOnTimeout bool
+	// CloseConnOf: k+1 = once caller k has returned with a connection, the application closes that connection
+	CloseConnOf int
 }
 
 const (
@@ -124,6 +128,7 @@ func c05Body(sc c05Scn) func(x *vs.Exec) {
 			t.hook = hook
 		}
 		calls := make([]*c05CallRun, len(sc.Callers))
+		lateAdded, connClosed := make(chan struct{}), make(chan struct{})
 		returnedCh := make([]chan struct{}, len(sc.Callers))
 		for i := range returnedCh {
 			returnedCh[i] = make(chan struct{})
@@ -141,6 +146,12 @@ func c05Body(sc c05Scn) func(x *vs.Exec) {
 			s.Go(fmt.Sprintf("caller%d", i), func() {
 				if cs.After > 0 {
 					vs.Recv(-9, returnedCh[cs.After-1])
+				}
+				if cs.AfterLate {
+					vs.Recv(-9, lateAdded)
+				}
+				if cs.AfterClose {
+					vs.Recv(-9, connClosed)
 				}
 				cr.start, cr.startT = vs.Stamp(), time.Now()
 				c, err := env.Swarm.DialPeer(ctx, P.ID)
@@ -179,6 +190,16 @@ func c05Body(sc c05Scn) func(x *vs.Exec) {
 			s.GoPrio("add-addr", 1, func() {
 				vs.Yield()
 				env.PS.AddAddr(P.ID, ma.StringCast(sc.LateAddr), peerstore.PermanentAddrTTL)
+				vs.Close(lateAdded)
+			})
+		}
+		if sc.CloseConnOf > 0 {
+			s.GoPrio("app-closes-conn", 1, func() {
+				vs.Recv(-9, returnedCh[sc.CloseConnOf-1])
+				if c := calls[sc.CloseConnOf-1].conn; c != nil {
+					c.Close()
+				}
+				vs.Close(connClosed)
 			})
 		}
 		ok := s.Run()
@@ -254,6 +275,10 @@ func c05Oracle(x *vs.Exec, sc c05Scn, env *fxEnv, calls []*c05CallRun, gens map[
 		if c.err == nil {
 			if c.conn == nil {
 				x.Fail("nil-conn-nil-error", "caller %d got neither a connection nor an error", i)
+				return
+			}
+			if fc, ok := c.conn.(*Conn).conn.(*fxConn); ok && fc.closeAt != 0 && fc.closeAt < c.start {
+				x.Fail("closed-connection-returned", "caller %d got connection %s without an error, but that connection had been closed (at %d) before the caller even called DialPeer (at %d): not a usable connection", i, fc.name, fc.closeAt, c.start)
 				return
 			}
 			if c.conn.RemotePeer() != P.ID {
@@ -377,6 +402,12 @@ func c05Oracle(x *vs.Exec, sc c05Scn, env *fxEnv, calls []*c05CallRun, gens map[
 			continue
 		}
 		k := key{g.gen, d.Addr}
+		if prev, dup := seen[k]; dup && prev.Conn != nil && prev.Conn.closeAt != 0 && prev.Conn.closeAt < d.Start {
+			// the earlier attempt produced a connection and that connection was closed before this attempt began: the
+			// at-most-once clause is about duplicate attempts, a new request after the connection died needs a new one
+			seen[k] = d
+			continue
+		}
 		if prev, dup := seen[k]; dup {
 			x.Fail("address-dialled-twice", "address %s was handed to the transport twice while the same callers were waiting (dial started at %d and at %d)", d.Addr, prev.Start, d.Start)
 			return
@@ -448,6 +479,8 @@ func c05Scenarios(thorough bool) []c05Scn {
 			Script: map[string][]string{c05QUIC: {fxFail}, c05TCP6a: {fxFail}, c05TCP6b: {fxFail}, c05TCP1: {fxFail}}, Callers: one},
 		{Name: "a new caller arrives after the previous worker's only caller was cancelled (perPeer=1, the dial hangs)", Addrs: []string{c05TCP1}, Script: map[string][]string{},
 			Callers: []c05Caller{{Cancel: true}, {After: 1}}, PerPeer: 1, AttemptOnTimeout: true},
+		{Name: "a worker kept alive by a caller on a hanging address serves a later caller after the connection it made was closed", Addrs: []string{c05TCP2}, LateAddr: c05TCP1,
+			Script: map[string][]string{c05TCP1: {fxOK, fxOK}}, Callers: []c05Caller{{}, {AfterLate: true}, {AfterClose: true}}, CloseConnOf: 2},
 		{Name: "last address fails while a caller with a new address joins", Addrs: []string{c05TCP1}, LateAddr: c05TCP2, Script: map[string][]string{c05TCP1: {fxFail}, c05TCP2: {fxOK}}, Callers: two},
 		{Name: "tcp + relay, force-direct and plain caller", Addrs: []string{c05TCP1, "RELAY"}, Script: map[string][]string{c05TCP1: {fxFail}, "RELAY": {fxOK}}, Callers: []c05Caller{{ForceDirect: true}, {}}},
 		{Name: "fd=1: ok and hang, caller 1 cancelled", Addrs: []string{c05TCP1, c05TCP2}, Script: map[string][]string{c05TCP1: {fxOK}}, Callers: []c05Caller{{}, {Cancel: true}}, FD: 1, PerPeer: 2, Ticks: []time.Duration{251 * time.Millisecond}},
